@@ -67,7 +67,7 @@ def items(tier, seed):
     # derived operands with different exponent vectors
     names = exprs.QUICK if tier == "quick" else exprs.THOROUGH
     pool = {nm: exprs.instances(nm, n_units=2) for nm in names}
-    nd = 160 if tier == "quick" else 1500
+    nd = 260 if tier == "quick" else 2500
     tries = 0
     while sum(1 for c in out if c["k"].startswith("d_")) < nd and tries < nd * 20:
         tries += 1
@@ -75,7 +75,7 @@ def items(tier, seed):
         A, B = rng.choice(pool[na]), rng.choice(pool[nb])
         if model_dims(A) == model_dims(B) or n_leaves(A) + n_leaves(B) > 5:
             continue
-        out.append({"k": rng.choice(["d_add", "d_sub", "d_lt", "d_array_add"]), "A": A, "B": B})
+        out.append({"k": rng.choice(["d_add", "d_sub", "d_lt", "d_array_add", "d_q_add", "d_q_sub", "d_q_radd"]), "A": A, "B": B})
     # derived operands asked for / copied into a table unit of another dimension (also one that fits only their LEADING factor)
     other = {"length": ["km", "s", "kg"], "time": ["h", "m", "kg"], "mass": ["g", "m", "s"]}
     n_extra = 0
@@ -221,7 +221,8 @@ def run(cfg, V):
                 b = Array.CreateWithQuantity(b.GetQuantity(), mk(b.GetValue()))
             if k == "d_array_GetValues_simple":
                 a = Array.CreateWithQuantity(a.GetQuantity(), (a.GetValue(), V["y"]))
-            ops = {"d_add": lambda: a + b, "d_sub": lambda: a - b, "d_lt": lambda: a < b, "d_array_add": lambda: a + b,
+            qa_, qb_ = a.GetQuantity(), b.GetQuantity()
+            ops = {"d_q_add": lambda: qa_ + qb_, "d_q_sub": lambda: qa_ - qb_, "d_q_radd": lambda: qb_ + qa_, "d_add": lambda: a + b, "d_sub": lambda: a - b, "d_lt": lambda: a < b, "d_array_add": lambda: a + b,
                    "d_GetValue_simple": lambda: a.GetValue(cfg["tu"]), "d_CreateCopy_value_unit": lambda: a.CreateCopy(value=V["y"], unit=cfg["tu"]),
                    "d_array_GetValues_simple": lambda: a.GetValues(cfg["tu"]), "d_quantity_Convert_simple": lambda: a.GetQuantity().Convert(V["y"], cfg["tu"])}
             fn = ops[k]
